@@ -124,6 +124,71 @@ Proof.
   apply isort_perm_eq; [apply okey_leb_total|apply okey_leb_trans|apply okey_leb_antisym|exact H].
 Qed.
 
+(** ** Positions *)
+Fixpoint pos (x : id) (l : list id) : option nat :=
+  match l with
+  | [] => None
+  | y :: l' => if str_eqb y x then Some 0%nat else option_map S (pos x l')
+  end.
+
+Lemma index_of_pos x l : forall k, index_of x l k = option_map (fun p => (k + Z.of_nat p)%Z) (pos x l).
+Proof.
+  induction l as [|y l IH]; intros k; cbn [index_of pos]; [reflexivity|].
+  destruct (str_eqb y x); cbn [option_map]; [f_equal; lia|].
+  rewrite IH. destruct (pos x l); cbn [option_map]; [f_equal; lia|reflexivity].
+Qed.
+
+Lemma ilookup_enum x l : forall k, ilookup x (enumerate_from k l) = index_of x l k.
+Proof.
+  induction l as [|y l IH]; intros k; cbn [enumerate_from ilookup index_of]; [reflexivity|].
+  destruct (str_eqb y x); [reflexivity|apply IH].
+Qed.
+
+Lemma enum_fst l : forall k, map fst (enumerate_from k l) = l.
+Proof. induction l as [|y l IH]; intros k; cbn [enumerate_from map fst]; [reflexivity|now rewrite IH]. Qed.
+
+Lemma pos_None x l : pos x l = None <-> ~ In x l.
+Proof.
+  induction l as [|y l IH]; cbn [pos In]; [tauto|].
+  destruct (str_eqb_spec y x) as [E|E].
+  - split; [discriminate|intros H; exfalso; apply H; now left].
+  - destruct (pos x l) as [p|]; cbn [option_map].
+    + split; [discriminate|]. intros H. exfalso. destruct IH as [_ IH].
+      assert (Hn : ~ In x l) by (intros Hx; apply H; now right). specialize (IH Hn). discriminate.
+    + split; [|reflexivity]. intros _ [H|H]; [congruence|]. now apply (proj1 IH).
+Qed.
+
+Lemma pos_lt x l p : pos x l = Some p -> (p < List.length l)%nat.
+Proof.
+  revert p; induction l as [|y l IH]; intros p; cbn [pos List.length]; [discriminate|].
+  destruct (str_eqb y x); [intros [= <-]; lia|].
+  destruct (pos x l) as [q|]; cbn [option_map]; [|discriminate]. intros [= <-]. specialize (IH q eq_refl). lia.
+Qed.
+
+Lemma pos_app x l1 l2 :
+  pos x (l1 ++ l2) = match pos x l1 with
+                     | Some p => Some p
+                     | None => option_map (fun p => (List.length l1 + p)%nat) (pos x l2)
+                     end.
+Proof.
+  induction l1 as [|y l1 IH]; cbn [app pos List.length].
+  - destruct (pos x l2); reflexivity.
+  - destruct (str_eqb y x); [reflexivity|]. rewrite IH.
+    destruct (pos x l1); cbn [option_map]; [reflexivity|]. destruct (pos x l2); reflexivity.
+Qed.
+
+Lemma pos_rev x l : NoDup l ->
+  pos x (rev l) = option_map (fun p => (List.length l - 1 - p)%nat) (pos x l).
+Proof.
+  induction 1 as [|a l Ha Hl IH]; [reflexivity|].
+  cbn [rev pos List.length]. rewrite pos_app, IH, rev_length. cbn [pos].
+  destruct (str_eqb_spec a x) as [E|E].
+  - subst a. assert (Hn : pos x l = None) by now apply pos_None. rewrite Hn. cbn [option_map].
+    f_equal. lia.
+  - destruct (pos x l) as [p|] eqn:Ep; cbn [option_map]; [f_equal; lia|reflexivity].
+Qed.
+
+
 Lemma filter_id {A} (f : A -> bool) l : (forall x, In x l -> f x = true) -> filter f l = l.
 Proof.
   induction l as [|a l IH]; intros H; cbn [filter]; [reflexivity|].
@@ -218,70 +283,6 @@ Section Mainline.
     - apply find_auth_in in Efa as [Hin Hfy]. constructor; [|eapply IH; eauto].
       intros Hx. pose proof (pl_walk_rank _ _ _ _ Hfy Hx). pose proof (Hrank i e _ Hf Hin). lia.
     - constructor; [intros []|constructor].
-  Qed.
-
-  (** ** Positions *)
-  Fixpoint pos (x : id) (l : list id) : option nat :=
-    match l with
-    | [] => None
-    | y :: l' => if str_eqb y x then Some 0%nat else option_map S (pos x l')
-    end.
-
-  Lemma index_of_pos x l : forall k, index_of x l k = option_map (fun p => (k + Z.of_nat p)%Z) (pos x l).
-  Proof.
-    induction l as [|y l IH]; intros k; cbn [index_of pos]; [reflexivity|].
-    destruct (str_eqb y x); cbn [option_map]; [f_equal; lia|].
-    rewrite IH. destruct (pos x l); cbn [option_map]; [f_equal; lia|reflexivity].
-  Qed.
-
-  Lemma ilookup_enum x l : forall k, ilookup x (enumerate_from k l) = index_of x l k.
-  Proof.
-    induction l as [|y l IH]; intros k; cbn [enumerate_from ilookup index_of]; [reflexivity|].
-    destruct (str_eqb y x); [reflexivity|apply IH].
-  Qed.
-
-  Lemma enum_fst l : forall k, map fst (enumerate_from k l) = l.
-  Proof. induction l as [|y l IH]; intros k; cbn [enumerate_from map fst]; [reflexivity|now rewrite IH]. Qed.
-
-  Lemma pos_None x l : pos x l = None <-> ~ In x l.
-  Proof.
-    induction l as [|y l IH]; cbn [pos In]; [tauto|].
-    destruct (str_eqb_spec y x) as [E|E].
-    - split; [discriminate|intros H; exfalso; apply H; now left].
-    - destruct (pos x l) as [p|]; cbn [option_map].
-      + split; [discriminate|]. intros H. exfalso. destruct IH as [_ IH].
-        assert (Hn : ~ In x l) by (intros Hx; apply H; now right). specialize (IH Hn). discriminate.
-      + split; [|reflexivity]. intros _ [H|H]; [congruence|]. now apply (proj1 IH).
-  Qed.
-
-  Lemma pos_lt x l p : pos x l = Some p -> (p < List.length l)%nat.
-  Proof.
-    revert p; induction l as [|y l IH]; intros p; cbn [pos List.length]; [discriminate|].
-    destruct (str_eqb y x); [intros [= <-]; lia|].
-    destruct (pos x l) as [q|]; cbn [option_map]; [|discriminate]. intros [= <-]. specialize (IH q eq_refl). lia.
-  Qed.
-
-  Lemma pos_app x l1 l2 :
-    pos x (l1 ++ l2) = match pos x l1 with
-                       | Some p => Some p
-                       | None => option_map (fun p => (List.length l1 + p)%nat) (pos x l2)
-                       end.
-  Proof.
-    induction l1 as [|y l1 IH]; cbn [app pos List.length].
-    - destruct (pos x l2); reflexivity.
-    - destruct (str_eqb y x); [reflexivity|]. rewrite IH.
-      destruct (pos x l1); cbn [option_map]; [reflexivity|]. destruct (pos x l2); reflexivity.
-  Qed.
-
-  Lemma pos_rev x l : NoDup l ->
-    pos x (rev l) = option_map (fun p => (List.length l - 1 - p)%nat) (pos x l).
-  Proof.
-    induction 1 as [|a l Ha Hl IH]; [reflexivity|].
-    cbn [rev pos List.length]. rewrite pos_app, IH, rev_length. cbn [pos].
-    destruct (str_eqb_spec a x) as [E|E].
-    - subst a. assert (Hn : pos x l = None) by now apply pos_None. rewrite Hn. cbn [option_map].
-      f_equal. lia.
-    - destruct (pos x l) as [p|] eqn:Ep; cbn [option_map]; [f_equal; lia|reflexivity].
   Qed.
 
   (** ** Depths *)
